@@ -207,12 +207,27 @@ def constraints_case(ck, sg, st, SymmetryConstraints):
     order = list(range(len(pts)))
     ck.rng.shuffle(order)
     # the tolerance is an argument: also use a wide one with noise between the default and the given eps
-    eps, amp = (None, 1e-7) if ck.rng.random() < 0.6 else (1.0e-3, 1.2e-4)
+    w = ck.rng.random()
+    eps, amp = (None, 1e-7) if w < 0.55 else (1.0e-3, 1.2e-4)
+    # third kind of noise (default tolerance): sizeable, but only ALONG the coordinates that the site symmetry of the
+    # listed point fixes, i.e. off the special position: the first listed member of each orbit by 0.4 eps, the others
+    # by 0.8 eps the other way.  Every point is within eps of the ideal orbit, so the partition must not change.
+    fixed_noise = w >= 0.85
+    if fixed_noise:
+        eps, amp = None, 0.0
+        ops = [(R, t) for R, t in ((sc.exact_op(o)) for o in sg.symop_list)]
     pos = []
+    seen_owner = {}
     for i in order:
         p = pts[i]
         n = [ck.rng.randrange(-1, 2) for _ in range(3)]
         noise = [ck.rng.choice([-1, 0, 1]) * amp for _ in range(3)]
+        if fixed_noise:
+            stab = [R for R, t in ops if all((sum(R[a][b] * p[b] for b in range(3)) + t[a] - p[a]) % 1 == 0 for a in range(3))]
+            fixed = [all(sum(R[a][b] for R in stab) == 0 for b in range(3)) for a in range(3)]
+            sgn = seen_owner.setdefault(owner[i], (ck.rng.choice([-1, 1]), i))
+            mag = 0.4e-5 if sgn[1] == i else -0.8e-5
+            noise = [sgn[0] * mag if fixed[a] else 0.0 for a in range(3)]
         pos.append([float(p[j]) + n[j] + noise[j] for j in range(3)])
     own = [owner[i] for i in order]
     scs = SymmetryConstraints(sg, pos) if eps is None else SymmetryConstraints(sg, pos, eps=eps)
